@@ -122,6 +122,36 @@ def literal_edge_programs(rng, n):
     return out
 
 # ---------------------------------------------------------------------------------------------------------------
+# float literals at full precision: 15-17 significant digits over the whole exponent range.  A float travels through JSON
+# as its shortest round-trip text; whether it comes back as the same float depends on how exactly the JSON reader parses
+# decimal text (serde_json's default parser is not correctly rounded: finding F14c).
+def float_precision_literals(rng, n):
+    import struct
+    out = ["3.898088070211341e46", "9.690406502940995e-28", "4.221069999614152e54", "2.9138649815953417e-124", "1.7976931348623157e308", "2.2250738585072014e-308",
+           "5e-324", "0.1", "0.30000000000000004", "123456789.12345678", "8.780790360890658e58"]
+    while len(out) < n + 11:
+        if rng.random() < 0.5:
+            x = struct.unpack("<d", struct.pack("<Q", rng.getrandbits(64) & 0x7FFFFFFFFFFFFFFF))[0]
+            if x != x or x == float("inf") or x == 0:
+                continue
+        else:
+            x = rng.uniform(0, 1) * 10 ** rng.randint(-30, 60)
+        t = repr(x)
+        if "e" in t:
+            m, e = t.split("e"); t = (m if "." in m else m + ".0") + "e" + str(int(e))
+        out.append(t)
+    return out
+
+
+def float_precision_programs(rng, n):
+    out = []
+    for i, t in enumerate(float_precision_literals(rng, n)):
+        k = i % 4
+        out.append(["from t | derive {x = %s}", "from t | filter a > %s | select {a}", "from [{a = 1, b = %s}] | select {b}", "from t | derive {x = a * %s, y = -%s}"][k] % ((t, t) if k == 3 else t))
+    return out
+
+
+# ---------------------------------------------------------------------------------------------------------------
 # literal kinds: every lr::Literal variant in every surface spelling the lexer accepts.  Used for relation-literal
 # cells (`from [{..}]`: the only place where RQ holds `lr::Literal`s outside an Expr) and for expression positions.
 LITERAL_KINDS = {
